@@ -148,6 +148,9 @@ class Body(object):
         if k in ("goto", "drop", "assert", "falseedge", "falseunwind"):
             return [t["t"]]
         if k == "switch":
+            known = self._known_switch_target(bi, t)
+            if known is not None:
+                return [known]
             r = []
             for _v, tb in t["ts"]:
                 if tb not in r:
@@ -160,6 +163,48 @@ class Body(object):
         if k == "yield":
             return [t["t"]]
         return []
+
+    def _known_switch_target(self, bi, t):
+        """`let x = Variant{..}; match x {..}` inside ONE block (the `if let Some(r) = None::<T> { return r }` prologue that
+        #[async_trait] emits, a matched literal): the switch tests the discriminant of an aggregate built just above it, only the
+        edge of that variant is feasible.  Returns the single feasible target or None."""
+        d = t.get("d") or {}
+        if "p" not in d or d["p"].get("pj"):
+            return None
+        dl = d["p"]["l"]
+        sts = self.blocks[bi]["st"]
+        disc = [st for st in sts if st.get("lhs", {}).get("l") == dl and not st["lhs"].get("pj")]
+        if len(disc) != 1 or disc[0].get("rv", {}).get("k") != "discr":
+            return None
+        pl = disc[0]["rv"].get("pl") or {}
+        if pl.get("pj"):
+            return None
+        src = pl.get("l")
+        aggs = [st for st in sts if st.get("lhs", {}).get("l") == src and not st["lhs"].get("pj")]
+        if len(aggs) != 1 or aggs[0].get("rv", {}).get("k") != "agg" or sts.index(aggs[0]) > sts.index(disc[0]):
+            return None
+        # the aggregate must be the only definition of that local in the whole body
+        n_defs = 0
+        for blk in self.blocks:
+            for st in blk["st"]:
+                if st.get("lhs", {}).get("l") == src and not st["lhs"].get("pj"):
+                    n_defs += 1
+            tt = blk["t"]
+            if tt.get("k") == "call" and isinstance(tt.get("dest"), dict) and tt["dest"].get("l") == src:
+                n_defs += 1
+        if n_defs != 1:
+            return None
+        v = aggs[0]["rv"].get("v")
+        val = None
+        for (num, name) in disc[0]["rv"].get("vs", []):
+            if name == v:
+                val = num
+        if val is None:
+            return None
+        for (num, tb) in t["ts"]:
+            if str(num) == str(val):
+                return tb
+        return t["else"]
 
     def pred(self, bi):
         if self._pred is None:
